@@ -40,6 +40,27 @@ def strategy(tier):
 
 
 def evaluate(case):
+    if "exact_length" in case:
+        from vlib import longlist
+
+        ev = Eval()
+        dev = longlist.exact_length_case(case["exact_length"])
+        if dev and not dev.get("inconclusive"):
+            ev.deviations.append(dev)
+        ev.nontrivial = True
+        return ev
+    return _evaluate(case)
+
+
+def extra(tier, seed, rep):
+    """Long synthetic listings whose length sits on / next to every plausible chunk size: the stream must still be exactly the
+    concatenation of one record per instruction line (a fold or flush at k*4096 or 65536 instructions would show here)."""
+    from vlib import longlist
+
+    longlist.run_exact_lengths(rep, Eval)
+
+
+def _evaluate(case):
     ev = Eval()
     if case["src"] == "synthetic":
         text = render(att_view(case["listing"]))
